@@ -151,7 +151,8 @@ def run(res, tier, seed, shard, nshards):
             else:
                 declared_pairs(res, W, rng, job[1])
 
-    H.in_sim(scen, watchdog=3000)
+    with H.ambient((seed, shard, "C17"), res, dims=("multithread", "tls", "dispatcher", "high_fd")):
+        H.in_sim(scen, watchdog=3000)
     W.enableTrace(False)
 
 
